@@ -39,6 +39,7 @@ CONTRACT_MODULES = [
     "contracts.runners",
     "contracts.policy",
     "contracts.forwarding",
+    "contracts.xcheck",
 ]
 
 
